@@ -127,10 +127,11 @@ def worker(args, scratch):
                     if kind == "self":
                         evs = wproxy.standin.events(w.vdir)[ev0:]
                         lookups = [e for e in evs if e["op"] == "lookup"]
-                        # one hit for the client connection plus at most one miss: the proxy opens its upstream
-                        # connection eagerly at accept time, here to its own listener; no request travels on it
-                        if len(lookups) > 2 or sum(1 for e in lookups if e["args"][1] == "hit") != 1:
-                            res["violations"].append(["self-destination-loop", dict(wit, lookups=len(lookups))])
+                        # exactly one hit, for this client's port. (The proxy opens its upstream connection eagerly at accept time, here to
+                        # its own listener: that second, unattributed connection shows up as a lookup miss, possibly late - misses are not judged.)
+                        hits = [e for e in lookups if e["args"][1] == "hit"]
+                        if len(hits) != 1 or hits[0]["args"][0] != str(conn.src_port):
+                            res["violations"].append(["self-destination-loop", dict(wit, hits=[e["args"] for e in hits])])
                     if len(res["samples"]) < 2:
                         res["samples"].append(wit)
                 else:
